@@ -29,8 +29,12 @@ def main():
         table.update(checks_cf.CHECKS)
         import checks_sched
         table.update(checks_sched.CHECKS)
+        import threading
+        run.heartbeat = framework.time.time()
+        framework.start_stall_watchdog(run, threading.get_ident())
         framework.consts_projection(run)
         table[prop](run)
+        run.heartbeat = None                 # finishing (evidence, coqchk in the thorough tier) is not an implementation call
     except Exception:
         run.proof_failures.append("check machinery failed: " + traceback.format_exc()[-1500:])
     return run.finish(**getattr(run, "finish_args", {}))
